@@ -378,9 +378,55 @@ def update_level(ctx):
     return first
 
 
+def eps_of_time(r, *, t, rate=6.0):
+    """time-dependent disorder parameter: epsilon(r, t) in [0.4, 1]"""
+    x, y = r
+    return 0.7 + 0.3 * np.cos(rate * t + 0.8 * x - 0.5 * y)
+
+
+def update_level_dynamic_epsilon(ctx):
+    """with a time-dependent epsilon the update of step n is solved with epsilon(r, t^n), whatever value of epsilon the
+    caller hands back from the previous step"""
+    import zoo
+    import runs
+
+    rng = ctx.rng
+    first = None
+    dev = zoo.make_device("bar_hole", rng, max_edge_length=1.0, gamma=float(rng.choice([1.0, 10.0])))
+    dt = 2e-3
+    opts = runs.options(adaptive=False, dt_init=dt, terminal_psi=None)
+    ref = runs.Reference(dev, opts, 2, applied_vector_potential=0.3, disorder_epsilon=eps_of_time)
+    solver = ref.solver
+    if not solver.dynamic_epsilon:
+        raise V.Infra("the solver does not treat eps_of_time as time-dependent")
+    n, E = len(dev.mesh.sites), solver.num_edges
+    for rep in range(4 if ctx.quick else 30):
+        t_now = float(rng.uniform(0.05, 2.0))
+        psi = 0.8 * (rng.normal(size=n) + 1j * rng.normal(size=n)) / np.sqrt(2)
+        mu = rng.normal(size=n) * 0.3
+        stale = np.array([eps_of_time(r, t=t_now - 0.21) for r in solver.sites])  # what the previous step reported
+        res = solver.update({"step": 3 + rep, "time": t_now, "dt": dt}, ref.rs, dt, psi=psi.copy(), mu=mu.copy(), supercurrent=np.zeros(E), normal_current=np.zeros(E),
+                            induced_vector_potential=np.zeros((E, 2)), epsilon=stale)
+        dt_out, psi2 = float(res[0]), np.asarray(res[1])
+        eps_now = np.array([eps_of_time(r, t=t_now) for r in solver.sites])
+        v = dict(psi=psi, abs_sq=np.abs(psi) ** 2, mu=mu, eps=eps_now, gamma=solver.gamma, u=solver.u, dt=dt_out, M=solver.operators.psi_laplacian)
+        z, w, b, disc, az2, aw2 = oracle_zw(v)
+        bad = check_answer(v, (psi2, np.abs(psi2) ** 2), np.arange(n), z, w, b, disc, az2, aw2)
+        ctx.case(("update-dynamic-epsilon", rep), nontrivial=True)
+        ctx.count("update_level_dynamic_epsilon_calls")
+        if bad:
+            i, what = bad[0]
+            rp = dict(call=rep, time=t_now, site=int(i), detail=what)
+            ctx.fail("update:wrong-epsilon-time", f"with a time-dependent epsilon the update at t = {t_now:.3f} does not solve the site equation built with epsilon(r, t): {what}", rp)
+            first = first or dict(key="update:wrong-epsilon-time", what=what, **rp)
+            break
+    return first
+
+
 def run(ctx):
     step_level(ctx)
     update_level(ctx)
+    update_level_dynamic_epsilon(ctx)
     nvec = 40 if ctx.quick else 1500
     n = 256 if ctx.quick else 512
     for v in boundary_vectors(ctx.rng, n):
